@@ -358,10 +358,21 @@ Print Assumptions C14_label_independent_partial.
    C14_label_independent_partial this is exactly C14_complete_statement for the
    model: g1 iso g2 gives a relabelling f with rename_g f g1 a permutation of g2.
    The argument it needs, as three lemmas about Iso/Canon.v:
-   (O1) m_refine: for Permutation-related triple lists and initial colourings
-        that are equal as sets of (node set, hash), the results are equal as sets
-        of (node set, hash) - the work list computes the coarsest stable
-        partition whatever the order, and hashes are sums;
+   (O1) m_refine - REFUTED as first stated ("the final colouring is the same set of
+        (class, hash) pairs for every order in which the work list pops colours"):
+        C14_refine_hash_order_refuted below.  The pop order is the order of the hash
+        VALUES; a class that receives no new item keeps its parent's hash, so
+        structurally different nodes can end with equal colour sums and be merged
+        as a "collision" under one hash function and not under another.  What is
+        true and proved: one step is free of the order of TRIPLES
+        (C14_distinguish_triple_order_free) and the merge only regroups nodes and
+        leaves distinct hashes (C14_collision_merge_regroups).  What completeness
+        needs instead of (O1): (O1') for a FIXED hash function the colouring after
+        m_refine, as a set of (class, hash), does not depend on the order of the
+        triples nor on the order of the nodes inside the initial colour (the order of
+        hash values is then fixed, so the pop order is, up to ties between colours of
+        equal key - and colours of equal key are exactly the collisions that the
+        final merge unites); not proved;
    (O2) m_traces: the SET of certificates of the leaves it explores is the same
         for such inputs - a candidate is skipped only when a VERIFIED automorphism
         maps it to a visited one (m_is_automorphism), score pruning uses
@@ -376,3 +387,41 @@ Definition C14_leafset_order_statement
     exists fuel' cts',
       m_canonical_triples hashfunc n3 hexs decs tstr g' fuel' = Some cts'
       /\ Permutation.Permutation cts cts'.
+
+(* ------------------------------------------------------------------ *)
+(* Round 5b: how far _refine is order-free (Iso/CanonOrder.v) *)
+From RV Require Import Iso.CanonOrder.
+
+(* REFUTED: "the result of _refine, as a set of (class, hash) pairs, depends on the
+   graph only".  The typed-neighbour shape w0 w1 w2 : U0, x y : U1, x p w1, x p w2,
+   y p w0 (p = urn:p6) under two hash functions (the same mixing function with two
+   seeds, in N arithmetic): x and y share a class under the first (7 classes) and
+   not under the second (8 classes).  rdflib with SHA-256 behaves like the second on
+   this predicate and like the first on urn:p2, p3, p5, p9. *)
+Theorem C14_refine_hash_order_refuted :
+  exists g h1 h2 p1 p2,
+    refined_classes h1 g = Some p1 /\ refined_classes h2 g = Some p2
+    /\ together (Blank 3) (Blank 4) p1 = true /\ together (Blank 3) (Blank 4) p2 = false
+    /\ length p1 = 7%nat /\ length p2 = 8%nat.
+Proof. exact refine_hash_order_refuted. Qed.
+Print Assumptions C14_refine_hash_order_refuted.
+
+(* One refinement step (Color.distinguish) yields the same classes - same nodes,
+   same order - with the same hashes for any two enumerations of the triples of
+   the graph: the hash of a colour is a sum, and a node collects the same multiset
+   of items. *)
+Theorem C14_distinguish_triple_order_free :
+  forall hashfunc n3 hexs decs g g' c W,
+  Permutation g g' ->
+  map (fun x => (nodes x, chash x)) (m_distinguish hashfunc n3 hexs decs g' c W)
+  = map (fun x => (nodes x, chash x)) (m_distinguish hashfunc n3 hexs decs g c W).
+Proof. exact distinguish_triple_order_free. Qed.
+Print Assumptions C14_distinguish_triple_order_free.
+
+(* The "hash collision" merge at the end of _refine regroups the nodes (nothing is
+   lost or duplicated) and leaves colours with pairwise different hashes. *)
+Theorem C14_collision_merge_regroups :
+  forall cs, Permutation (flat_map nodes (merge_colors cs)) (flat_map nodes cs)
+             /\ distinct_hashes (merge_colors cs).
+Proof. exact merge_colors_regroups. Qed.
+Print Assumptions C14_collision_merge_regroups.
